@@ -115,21 +115,24 @@ func appliedEvents(cau chain.ApplyUpdate, walletAddress types.Address) (events [
 	}
 
 	for _, txn := range block.Transactions {
+		// a siafund claim belongs to the address the claim output pays (the
+		// claim address), whether or not the transaction also moves siacoins
+		// of the wallet
+		for _, si := range txn.SiafundInputs {
+			outputID := si.ParentID.ClaimOutputID()
+			sce, ok := siacoinElements[outputID]
+			if !ok {
+				panic("missing claim siacoin element")
+			} else if sce.SiacoinOutput.Address != walletAddress {
+				continue
+			}
+
+			addEvent(types.Hash256(outputID), EventTypeSiafundClaim, EventPayout{
+				SiacoinElement: sce.Copy(),
+			}, sce.MaturityHeight)
+		}
 		if !relevantV1Txn(txn, walletAddress) {
 			continue
-		}
-		for _, si := range txn.SiafundInputs {
-			if si.UnlockConditions.UnlockHash() == walletAddress {
-				outputID := si.ParentID.ClaimOutputID()
-				sce, ok := siacoinElements[outputID]
-				if !ok {
-					panic("missing claim siacoin element")
-				}
-
-				addEvent(types.Hash256(outputID), EventTypeSiafundClaim, EventPayout{
-					SiacoinElement: sce.Copy(),
-				}, sce.MaturityHeight)
-			}
 		}
 
 		event := EventV1Transaction{
@@ -149,21 +152,21 @@ func appliedEvents(cau chain.ApplyUpdate, walletAddress types.Address) (events [
 	}
 
 	for _, txn := range block.V2Transactions() {
+		for _, si := range txn.SiafundInputs {
+			outputID := types.SiafundOutputID(si.Parent.ID).V2ClaimOutputID()
+			sce, ok := siacoinElements[outputID]
+			if !ok {
+				panic("missing claim siacoin element")
+			} else if sce.SiacoinOutput.Address != walletAddress {
+				continue
+			}
+
+			addEvent(types.Hash256(outputID), EventTypeSiafundClaim, EventPayout{
+				SiacoinElement: sce.Copy(),
+			}, sce.MaturityHeight)
+		}
 		if !relevantV2Txn(txn, walletAddress) {
 			continue
-		}
-		for _, si := range txn.SiafundInputs {
-			if si.Parent.SiafundOutput.Address == walletAddress {
-				outputID := types.SiafundOutputID(si.Parent.ID).V2ClaimOutputID()
-				sce, ok := siacoinElements[outputID]
-				if !ok {
-					panic("missing claim siacoin element")
-				}
-
-				addEvent(types.Hash256(outputID), EventTypeSiafundClaim, EventPayout{
-					SiacoinElement: sce.Copy(),
-				}, sce.MaturityHeight)
-			}
 		}
 
 		addEvent(types.Hash256(txn.ID()), EventTypeV2Transaction, EventV2Transaction(txn), index.Height)
